@@ -109,7 +109,7 @@ def run(chk):
                 eko = builder.load_cards(th, op).build()
                 eko[(10.0, 4)] = items.Operator("operator-1")
                 if user_failure:
-                    raise RuntimeError("user code / computation step fails inside the context")
+                    raise (user_failure if isinstance(user_failure, type) else RuntimeError)("user code / computation step fails or is interrupted inside the context")
                 eko[(20.0, 5)] = items.Operator("operator-2", "error-2")
             return eko
         finally:
@@ -136,7 +136,7 @@ def run(chk):
                 eko[(30.0, 5)] = items.Operator("operator-3")
                 eko.update()
                 if user_failure:
-                    raise RuntimeError("user code fails inside the context")
+                    raise (user_failure if isinstance(user_failure, type) else RuntimeError)("user code fails or is interrupted inside the context")
             return eko
         finally:
             items.Operator.save = saved_save
@@ -242,6 +242,36 @@ def run(chk):
             raised = True
         chk.ground(f"C38.{name}.exception_in_context.archive_untouched", raised and fs.files.get(ARCH) == before and not [l for l in fs.log if l[1].startswith(ARCH)], fn="eko.io.struct:EKO.__exit__", replay=rp,
                    goal="an exception inside the context propagates and no operation touches the archive path", detail=str([l for l in fs.log if l[1].startswith(ARCH)]))
+        # "failed or interrupted": an interruption is not an Exception subclass (KeyboardInterrupt, SystemExit, GeneratorExit)
+        for exc in (KeyboardInterrupt, SystemExit, GeneratorExit):
+            fs = G.FS()
+            if old:
+                prepare_edit(fs)
+            before = fs.files.get(ARCH)
+            try:
+                session(fs, user_failure=exc)
+                raised = False
+            except exc:
+                raised = True
+            chk.ground(f"C38.{name}.interrupted_in_context[{exc.__name__}].archive_untouched", raised and fs.files.get(ARCH) == before and not [l for l in fs.log if l[1].startswith(ARCH)], fn="eko.io.struct:EKO.__exit__",
+                       replay=rp, goal="an interruption inside the context propagates and no operation touches the archive path", detail=str([l for l in fs.log if l[1].startswith(ARCH)]))
+        # an interruption arriving during any disk-changing operation of the session (instead of an I/O error)
+        badi = []
+        for k in range(1, K + 1):
+            fs = G.FS()
+            if old:
+                prepare_edit(fs)
+            fs.fail_at, fs.fault_class = k, G.Interrupt
+            failed = None
+            try:
+                session(fs)
+            except BaseException as e:   # noqa: BLE001
+                failed = f"{type(e).__name__}: {e}"
+            state = fs.files.get(ARCH)
+            if not ((state == old or complete(state)) if failed else complete(state)):
+                badi.append(f"{failed}: archive afterwards = {'absent' if state is None else state}")
+        chk.ground(f"C38.{name}.every_fault_point.interrupted.archive_old_or_complete", not badi, fn=fn, replay=rp,
+                   goal="an interruption (KeyboardInterrupt) during any disk-changing operation leaves the archive absent / OLD or complete", detail="; ".join(badi[:3]) or None)
     chk.extra["exhaustive"] = True
     chk.extra["rule"] = "one execution of the real session code per fault point (each disk-changing operation of the fault-free run fails once), each followed by a fault-free re-run; all fault points are distinct operations"
     chk.extra["evaluations"] = 2 * chk.configs
